@@ -36,6 +36,8 @@ def judge(ctx, checker, case, calls=1, nontrivial=True, bulk=False):
 
 
 def replay(case):
+    if case.get("kind") == "execution":
+        return []      # the whole execution is the case: mc/cli.py re-executes the recorded choices
     fn = KINDS[case["kind"]]
     res = fn(case)
     fails = res[0] if isinstance(res, tuple) else res
